@@ -1,4 +1,5 @@
 import PegVerif.Props.C12
+import PegVerif.Proofs.RunesLemmas
 /-
   C13 — generated parsers never crash or misindex: whenever the PEG semantics assigns an outcome
   to the entry rule (which it does for well-formed grammars), every run returns true or false —
@@ -43,8 +44,29 @@ theorem C13_position_in_buffer {ρ e p p' f evs} (h : Eval G ρ inp e p (.ok p' 
   have := (Eval_bound h hp _ _ rfl).2
   simp [bufOf]; omega
 
+/-- **C13** (every Go string): whatever bytes `Buffer` holds — NUL, ill-formed UTF-8, surrogates,
+    the maximum code point — the rune sequence `[]rune(Buffer)` the parser works on (model `runes`,
+    tied to the real conversion by T-run, which sends bytes) never contains the end symbol, so the
+    `inpOK` hypothesis of `World` holds for EVERY buffer, not just well-formed text; and it is no
+    longer than the byte string, so rune offsets fit wherever byte offsets do. -/
+theorem C13_every_buffer_is_admissible (bs : List Nat) :
+    (∀ c ∈ runes bs, c ≠ END) ∧ (runes bs).length ≤ bs.length :=
+  ⟨runes_ne_END bs, runes_length_le bs⟩
+
+/-- ASCII buffers are their own rune sequence (offsets are byte offsets there). -/
+theorem C13_ascii_identity (bs : List Nat) (h : ∀ b ∈ bs, b < 0x80) : runes bs = bs := runes_ascii bs h
+
+-- the decoding table on the adversarial inputs named by the property (tests, labelled as tests)
+example : runes [0xF4, 0x8F, 0xBF, 0xBF] = [0x10FFFF] := by decide
+example : runes [0xF4, 0x90, 0x80, 0x80] = [0xFFFD, 0xFFFD, 0xFFFD, 0xFFFD] := by decide
+example : runes [0xED, 0xA0, 0x80] = [0xFFFD, 0xFFFD, 0xFFFD] := by decide      -- surrogate
+example : runes [0xC0, 0x80, 0, 0x61] = [0xFFFD, 0xFFFD, 0, 0x61] := by decide  -- overlong NUL, NUL
+example : runes [0xE4, 0xB8, 0x96, 0xE4] = [0x4E16, 0xFFFD] := by decide        -- truncated
+
 end PegVerif
 
+#print axioms PegVerif.C13_every_buffer_is_admissible
+#print axioms PegVerif.C13_ascii_identity
 #print axioms PegVerif.C13_no_panic
 #print axioms PegVerif.C13_token_slices
 #print axioms PegVerif.C13_position_in_buffer
